@@ -60,7 +60,7 @@ def run(ctx):
     if not ctx.thorough:
         rnd.shuffle(classes)
         classes = [c for c in classes if c['par']['shape'] != 'cached'] + [c for c in classes if c['par']['shape'] == 'cached'][:300]
-    scens = [scenario(c, random.Random(ctx.seed * 7919 + i)) for i, c in enumerate(classes)]
+    scens = [scenario(c, random.Random(ctx.seed * 7919 + i)) for i, c in enumerate(classes * (8 if ctx.thorough else 1))]
     out = cachesim.run_scenarios(ctx, tree, scens, 6)
     hist = [{'ev': cachesim.strip_for_tlc(ev)} for _, ev in out]
     rej = escen.validate(ctx, os.path.join(SPEC, 'Trace_Conditional.tla'), os.path.join(SPEC, 'Trace_Conditional.cfg'), hist, 'cond')
